@@ -187,8 +187,14 @@ def units(ctx):
         if fi.cls is None:
             continue
         for n in ctx.own_nodes(fi):
-            if isinstance(n, ast.Assign) and len(n.targets) == 1 and _self_attr(n.targets[0]) and \
-                    any(isinstance(x, ast.Call) and ((isinstance(x.func, ast.Attribute) and x.func.attr == SRC)) for x in ast.walk(n.value)):
+            if not (isinstance(n, ast.Assign) and len(n.targets) == 1 and _self_attr(n.targets[0])):
+                continue
+            if (fi.cls.qual, _self_attr(n.targets[0])) not in SINK_UNITS and not any(
+                    isinstance(x, ast.Call) and isinstance(x.func, ast.Attribute) and x.func.attr == SRC for x in ast.walk(n.value)):
+                continue
+            from .. import expand as _ex
+            value = _ex.expand(ctx, fi, n.value, n)
+            if any(isinstance(x, ast.Call) and ((isinstance(x.func, ast.Attribute) and x.func.attr == SRC)) for x in ast.walk(value)):
                 k = (fi.cls.qual, _self_attr(n.targets[0]))
                 seen.add(k)
                 want = SINK_UNITS.get(k)
@@ -196,7 +202,7 @@ def units(ctx):
                 if want is None:
                     obs.append(Ob('SA-UNITS', key, False, ctx.loc(fi, n), 'unknown sink for a GMT offset: add its unit to the table after reading the standard'))
                     continue
-                got = _unit(n.value, su)
+                got = _unit(value, su)
                 ok = got == want[0]
                 obs.append(Ob('SA-UNITS', key, ok, ctx.loc(fi, n),
                               '' if ok else 'stores the offset in %s, the field is defined in %s (%s)' % (
@@ -211,4 +217,63 @@ def units(ctx):
         rng = [n for n in ctx.own_nodes(ts) if isinstance(n, ast.Compare) and 'self.tz' in norm(n) and '1440' in norm(n)]
         obs.append(Ob('SA-UNITS', 'udf.UDFTimestamp.parse|range', bool(rng), ctx.loc(ts, ts.node),
                       '' if rng else 'parser no longer range-checks tz as minutes (+-1440)'))
+    return obs
+
+
+GLOBAL_TZ = ('timezone', 'altzone', 'daylight', 'tzname')
+
+
+@rule('SA-DATE.instant')
+@props('C19')
+def instant(ctx):
+    """The recorded GMT offset is a function of the instant: (a) the value stored in each offset field comes
+    from a function that receives the instant, breaks it down with time.gmtime() and compares that with the
+    local broken-down time; (b) nothing in the package reads time.timezone / time.altzone / time.daylight /
+    time.tzname - those are process-wide constants derived from the zone's rules for the *current* year, not
+    the offset that was in force at the instant being recorded."""
+    obs = []
+    for fi in ctx.m.pkg_functions():
+        for n in ctx.own_nodes(fi):
+            if isinstance(n, ast.Attribute) and n.attr in GLOBAL_TZ and isinstance(n.value, ast.Name) and n.value.id == 'time':
+                obs.append(Ob('SA-DATE.instant', '%s|time.%s' % (fi.qual, n.attr), False, ctx.loc(fi, n),
+                              '%s reads time.%s: a process-wide constant taken from the zone rules of the current year, not the offset in force at the instant '
+                              'that is being recorded (zones whose rules changed, negative DST) - the offset must be derived from gmtime(instant) vs localtime(instant)'
+                              % (fi.qual, n.attr)))
+    nsinks = 0
+    for (cq, attr), _u in sorted(SINK_UNITS.items()):
+        ci = ctx.cls(cq)
+        new = ci.methods.get('new')
+        if new is None:
+            raise AnalysisError('anchor-vanished %s.new' % cq)
+        assigns = [n for n in ctx.own_nodes(new) if isinstance(n, ast.Assign) and len(n.targets) == 1 and _self_attr(n.targets[0]) == attr]
+        if not assigns:
+            raise AnalysisError('anchor-vanished: %s.new no longer assigns self.%s' % (cq, attr))
+        for a in assigns:
+            nsinks += 1
+            key = '%s.new|self.%s' % (cq, attr)
+            from .. import expand as _ex
+            val = _ex.expand(ctx, new, a.value, a)
+            calls = [x for x in ast.walk(val) if isinstance(x, ast.Call)]
+            aware = False
+            seen_f = []
+            for c in calls:
+                callees, kind = ctx.t._resolve(c, new)
+                if kind not in ('func', 'method'):
+                    continue
+                for f in callees:
+                    seen_f.append(f.qual)
+                    params = [p.lstrip('*') for p in f.params if p != 'self']
+                    gm = [x for x in ctx.own_nodes(f) if isinstance(x, ast.Call) and norm(x.func) == 'time.gmtime' and x.args and
+                          isinstance(x.args[0], ast.Name) and x.args[0].id in params]
+                    tmreads = set(x.value.id for x in ctx.own_nodes(f) if isinstance(x, ast.Attribute) and x.attr.startswith('tm_') and isinstance(x.value, ast.Name))
+                    if gm and len(tmreads) >= 2 and any(t in params for t in tmreads):
+                        aware = True
+            constant = not calls and isinstance(val, ast.Constant)
+            params_new = [p.lstrip('*') for p in new.params]
+            ok = aware or constant or (not calls and isinstance(val, ast.Name) and val.id in params_new)
+            obs.append(Ob('SA-DATE.instant', key, ok, ctx.loc(new, a),
+                          '' if ok else 'the GMT offset stored in %s.%s is computed by %s, which does not compare time.gmtime(instant) with the local broken-down time of '
+                          'the same instant: the recorded offset is then not the one in force at that instant' % (cq.split('.')[-1], attr, ', '.join(seen_f) or norm(a.value))))
+    if nsinks < 3:
+        raise AnalysisError('anchor-vanished: GMT offset sinks (%d)' % nsinks)
     return obs
